@@ -15,7 +15,8 @@ CONSTANTS Rec,               \* the trace: ndJsonDeserialize(IOEnv.TRACE), defin
                              \* (TLC evaluates constant definitions of the root module once)
           OSched(_, _, _),   \* (type, key bytes, extra) -> schedule
           OEnc(_, _),        \* (schedule, block) -> block
-          ODec(_, _)
+          ODec(_, _),
+          ExtraKinds         \* event kinds the instantiating module handles itself (never skipped here)
 VARIABLES l,      \* index of the next trace line to consume
           inst    \* id -> [type, ks]
 
@@ -80,11 +81,19 @@ Drop ==
 
 Reset == IsEvent("reset") /\ inst' = <<>>
 
-Checked == {"new", "enc", "dec", "blocks", "drop", "reset", "clone", "from"}
-\* events that belong to other layers of the same trace are consumed unchanged
-Skip == l <= N /\ Rec[l].ev \notin Checked /\ l' = l + 1 /\ UNCHANGED inst
+\* debugging aid (bin/oracle): print what the specification computes; never used by the checks
+Eval ==
+    /\ IsEvent("eval")
+    /\ LET e == Rec[l]
+           ks == TLCEval(OSched(e.type, e.key, e.x))
+       IN PrintT(<<"EVAL", "enc", OEnc(ks, e.in), "dec", ODec(ks, e.in)>>)
+    /\ UNCHANGED inst
 
-Next == New \/ Enc \/ Dec \/ Blocks \/ Derive("clone") \/ Derive("from") \/ Drop \/ Reset \/ Skip
+Checked == {"new", "enc", "dec", "blocks", "drop", "reset", "clone", "from", "eval"}
+\* events that belong to other layers of the same trace are consumed unchanged
+Skip == l <= N /\ Rec[l].ev \notin (Checked \cup ExtraKinds) /\ l' = l + 1 /\ UNCHANGED inst
+
+Next == New \/ Enc \/ Dec \/ Blocks \/ Derive("clone") \/ Derive("from") \/ Drop \/ Reset \/ Eval \/ Skip
 vars == <<l, inst>>
 Spec == Init /\ [][Next]_vars
 
